@@ -327,6 +327,10 @@ func FSInit(path string, data []byte) {
 // right after it) and Crash then reports true. Natively f always runs to completion.
 func Crash(f func()) bool { f(); return false }
 
+// FSRestart: after a crash (engine) the machine comes back: what survived is the disk content
+// from here on and later calls can crash again. Natively nothing crashed: no-op.
+func FSRestart() {}
+
 // FSDurable returns what the disk holds for path (after a crash: the synced state plus any
 // prefix of the unsynced operations; natively: the file as it is).
 func FSDurable(path string) ([]byte, bool) {
